@@ -92,3 +92,18 @@ Theorem C14_stop_when_written_refuted :
              /\ gin_loop stop_when_written ms false [EHandler] <> map (fun m => EMw (fst m)) ms ++ [EHandler].
 Proof. exact stop_when_written_refuted. Qed.
 Print Assumptions C14_stop_when_written_refuted.
+
+(** The first-to-last compatibility flags are about the per-operation (router) middlewares.  The strict chain has one
+    documented order and no flag of its own: with passing per-operation middlewares every trace ends with the strict chain
+    (last listed strict middleware outermost), whatever the flag says; without per-operation middlewares the flag changes
+    nothing at all. *)
+Theorem C14_strict_chain_is_the_suffix_under_either_flag : forall fw ftl ms sm,
+  (forall m, In m ms -> m = Pass) ->
+  exists pre, request_trace fw ftl ms (Some sm) = pre ++ strict_chain sm.
+Proof. exact all_pass_strict_suffix. Qed.
+Print Assumptions C14_strict_chain_is_the_suffix_under_either_flag.
+
+Theorem C14_strict_only_trace_ignores_first_to_last : forall fw sm,
+  request_trace fw true [] (Some sm) = request_trace fw false [] (Some sm).
+Proof. exact strict_only_trace_ignores_first_to_last. Qed.
+Print Assumptions C14_strict_only_trace_ignores_first_to_last.
